@@ -605,6 +605,15 @@ class PyOracle:
 
     HOISTABLE = frozenset(["param", "assign", "def", "class", "import"])
 
+    def module_block_imports(self):
+        """names bound by an import statement that sits inside a compound statement at module level"""
+        out = set()
+        for (ln, n, role, ps, extra) in self.occs:
+            if role == "def" and isinstance(extra, tuple) and ps.kind == "module" and \
+                    self.line_ctx.get(ln, (0, False))[0] > 0:
+                out.add(n)
+        return out
+
     def scope_by_ident(self, kind, line):
         for ps in self.scopes:
             if ps.kind == kind and ps.line == line:
@@ -704,6 +713,7 @@ def compare_unit(unit, oracle, bind, lang="python", imports=None, col=None):
     -> (discrepancies [(sig, what)], stats dict)"""
     out = []
     stats = collections.Counter()
+    block_imports = oracle.module_block_imports()
     for r in oracle.resolved():
         role = r["role"]
         if role == "param" or r["extra"] in ("def", "class", "except") or isinstance(r["extra"], tuple):
@@ -755,6 +765,8 @@ def compare_unit(unit, oracle, bind, lang="python", imports=None, col=None):
                 edesc = "%s of %s %s (line %d)" % (how, owner.kind, owner.name, owner.line)
             if forms and not (forms & oracle.HOISTABLE):
                 ekind = UNHOISTED_KIND.get(frozenset(forms), "bound-only-by-unhoisted-forms(mixed)")
+            if name in block_imports:
+                ekind = "name-also-imported-inside-a-module-level-block"
             if not ok:
                 ck = chosen_kind(d, unit, ps)
                 if d["kind"] == "decl" and d["unit"] == unit:
